@@ -323,6 +323,69 @@ def run(ctx):
                                f"be allocated with self.{CACHED} (bounds checking is off)", st.lineno)
         ctx.floor(f"counter-indexed-stores:{name}", n_st, 4)
 
+    # ---------------- R1e: the sanitised index replaces the raw one ------------------
+    # after `x = <sanitiser>(p, n)` the raw value p (possibly negative, possibly a mask or a list) is dead: every later
+    # comparison with stored indices, every helper call and every length uses x
+    n_san = 0
+    for name, f in meths.items():
+        body_nodes = list(walk_local(f))
+        for st in body_nodes:
+            if not (isinstance(st, ast.Assign) and len(st.targets) == 1 and isinstance(st.targets[0], ast.Name) and isinstance(st.value, ast.Call)
+                    and (call_name(st.value) or "") in SANITISERS and st.value.args and isinstance(st.value.args[0], ast.Name)):
+                continue
+            raw, clean = st.value.args[0].id, st.targets[0].id
+            n_san += 1
+            if raw == clean:
+                ctx.ob("R1.raw-index-not-reused", BONDS, f"BondList.{name}", f"{clean} = {call_name(st.value)}({raw}, ..) rebinds the name", True, "", st.lineno)
+                continue
+            in_raise = {id(x) for r in body_nodes if isinstance(r, ast.Raise) for x in ast.walk(r)}
+            later = [x for x in body_nodes if isinstance(x, ast.Name) and x.id == raw and isinstance(x.ctx, ast.Load)
+                     and (x.lineno, x.col_offset) > (st.end_lineno, st.end_col_offset) and id(x) not in in_raise]
+            ctx.ob("R1.raw-index-not-reused", BONDS, f"BondList.{name}", f"{clean} = {call_name(st.value)}({raw}, ..); {raw} not read afterwards", not later,
+                   f"the caller's index `{raw}` is used again after it was normalised into `{clean}`"
+                   + (f" (line {later[0].lineno})" if later else "") + ": a negative index then matches no stored atom index / is taken for a position",
+                   later[0].lineno if later else st.lineno)
+    ctx.floor("sanitiser-assignments", n_san, 6)
+
+    # ---------------- R6: the reference mapping -----------------------------------------
+    from ..exprnorm import check_spec, summarize as _summ, same_expr as _same
+    check_spec(ctx, "R6.merge", BONDS, "BondList.merge",
+               "BondList(max(self._atom_count, bond_list._atom_count), np.concatenate([bond_list.as_array(), self.as_array()], axis=0))",
+               "the merged list covers the atoms of both lists and the argument's bonds come first (at construction the first type of a "
+               "duplicate wins: the argument takes precedence)")
+    check_spec(ctx, "R6.equality", BONDS, "BondList.__eq__",
+               "False if not isinstance(item, BondList) else (self._atom_count == item._atom_count and self.as_set() == item.as_set())",
+               "two bond lists are equal when they have the same atom count and the same set of (i, j, type) bonds")
+    # stripping aromaticity: a total table over the aromatic types, each mapped to the type without the AROMATIC_ prefix
+    members = [st.targets[0].id for st in src.cls("BondType").body if isinstance(st, ast.Assign) and isinstance(st.targets[0], ast.Name)
+               and isinstance(st.value, ast.Constant)]
+    ctx.need(len(members) >= 9, "BondType members")
+    ra = meths["remove_aromaticity"]
+    table = {}
+    for lp in walk_local(ra):
+        if isinstance(lp, ast.For) and isinstance(lp.iter, (ast.List, ast.Tuple)) and isinstance(lp.target, ast.Tuple) and len(lp.target.elts) == 2:
+            a_, b_ = (e.id for e in lp.target.elts)
+            applies = any(isinstance(b, ast.Assign) and isinstance(b.targets[0], ast.Subscript) and _same(b.targets[0].slice, f"bond_types == {a_}")
+                          and _same(b.value, b_) and _same(b.targets[0].value, "bond_types") for b in lp.body)
+            if applies:
+                for e in lp.iter.elts:
+                    if isinstance(e, ast.Tuple) and len(e.elts) == 2:
+                        k_, v_ = (dotted(x) or "?" for x in e.elts)
+                        table[k_.split(".")[-1]] = v_.split(".")[-1]
+    ctx.need(bool(table), "replacement table of BondList.remove_aromaticity")
+    want_t = {m: (m[len("AROMATIC_"):] if m.startswith("AROMATIC_") else "ANY") for m in members if m.startswith("AROMATIC")}
+    ctx.ob("R6.aromaticity-table", BONDS, "BondList.remove_aromaticity", str(sorted(table.items())), table == want_t,
+           f"every aromatic bond type must be replaced by its non-aromatic counterpart: {sorted(want_t.items())}", ra.lineno)
+    view = [st for st in stmts(ra) if isinstance(st, ast.Assign) and _same(st.targets[0], "bond_types")]
+    ctx.ob("R6.aromaticity-table", BONDS, "BondList.remove_aromaticity", "bond_types is the type column of the list itself",
+           len(view) == 1 and _same(view[0].value, "self._bonds[:, 2]"),
+           "the replacement must act on the stored type column (a view of self._bonds), not on a copy", ra.lineno)
+    rbo = _summ(meths["remove_bond_order"])
+    ctx.ob("R6.remove-bond-order", BONDS, "BondList.remove_bond_order", "self._bonds[:, 2] = BondType.ANY",
+           rbo.env.get("self") is not None and _same(rbo.env["self"], "__set__(self._bonds, __idx__[:, 2], BondType.ANY)") or
+           any(isinstance(st, ast.Assign) and _same(st.targets[0], "self._bonds[:, 2]") and _same(st.value, "BondType.ANY") for st in stmts(meths["remove_bond_order"])),
+           "every bond becomes BondType.ANY", meths["remove_bond_order"].lineno)
+
     # ---------------- R4 who may write --------------------------------------
     n_w = 0
     for rel in ctx.all_sources((".py", ".pyx")):
@@ -440,6 +503,16 @@ def length_guard(func, params):
 
 
 MUTANTS = [
+    Mutant("remove-bonds-to-raw-index", BONDS, "            if (all_bonds_v[i,0] == index or all_bonds_v[i,1] == index):\n                mask_v[i] = False\n        # Remove the bonds\n",
+           "            if (all_bonds_v[i,0] == atom_index or all_bonds_v[i,1] == atom_index):\n                mask_v[i] = False\n        # Remove the bonds\n",
+           "R1.raw-index-not-reused", "BondList.remove_bonds_to"),
+    Mutant("merge-atom-count-of-self", BONDS, "            max(self._atom_count, bond_list._atom_count),\n", "            self._atom_count,\n", "R6.merge"),
+    Mutant("merge-self-first", BONDS, "                [bond_list.as_array(), self.as_array()],\n", "                [self.as_array(), bond_list.as_array()],\n", "R6.merge"),
+    Mutant("eq-ignores-atom-count", BONDS, "        return (self._atom_count == item._atom_count and\n                self.as_set() == item.as_set())",
+           "        return self.as_set() == item.as_set()", "R6.equality"),
+    Mutant("aromatic-any-forgotten", BONDS, "            (BondType.AROMATIC, BondType.ANY),\n", "", "R6.aromaticity-table"),
+    Mutant("aromatic-double-to-single", BONDS, "            (BondType.AROMATIC_DOUBLE, BondType.DOUBLE),\n", "            (BondType.AROMATIC_DOUBLE, BondType.SINGLE),\n", "R6.aromaticity-table"),
+    Mutant("bond-order-single", BONDS, "        self._bonds[:,2] = BondType.ANY\n", "        self._bonds[:,2] = BondType.SINGLE\n", "R6.remove-bond-order"),
     Mutant("all-bonds-types-buffer-transposed", BONDS, "            (self._atom_count, self._max_bonds_per_atom), -1, dtype=np.int8\n",
            "            (self._max_bonds_per_atom, self._atom_count), -1, dtype=np.int8\n", "R3.buffer-sized-by-cache", "BondList.get_all_bonds"),
     Mutant("get-bonds-buffer-minus-one", BONDS, "        cdef np.ndarray bonds = np.zeros(self._max_bonds_per_atom,\n                                         dtype=np.uint32)",
